@@ -164,7 +164,20 @@ fn check_utf32(ctx: &Ctx, case: &CaseId, bytes: Vec<u8>) {
 fn check_serialise(ctx: &Ctx, case: &CaseId, key: &rcgen::KeyPair, kind: StrKind, text: &str) -> bool {
 	let mut p = CertificateParams::default();
 	let mut dn = DistinguishedName::new();
-	dn.push(DnType::OrganizationName, dn_value(kind, text));
+	let value = match crate::guard(|| dn_value(kind, text)) {
+		Ok(v) => v,
+		Err(_) => {
+			// the constructor refused a text made of alphabet characters only (reported by the sweep as well)
+			ctx.violation(
+				&format!("c13:alphabet:{:?}", kind),
+				case,
+				&format!("{:?} {:?}", kind, crate::util::clip(text, 80)),
+				"constructor refuses a text made only of characters of the type's alphabet",
+			);
+			return false;
+		},
+	};
+	dn.push(DnType::OrganizationName, value);
 	p.distinguished_name = dn;
 	p.serial_number = Some(rcgen::SerialNumber::from_slice(&[1]));
 	if kind == StrKind::Ia5 {
